@@ -585,6 +585,9 @@ func (e *Engine) runPath(it workItem) {
 		if tag != "" {
 			e.obs = append(e.obs, tag)
 		}
+		if e.obs == nil {
+			e.obs = []string{}
+		}
 		res.Observations[int(it.vector["__idx"])] = e.obs
 		return
 	}
